@@ -177,3 +177,97 @@ def validate_dtcwt(rep, pid, tier, which):
     if cases:
         a, b, cfg = cases[0]
         rep.sample({"stage_trace": cfg, "events": events[a:b][:8]})
+
+
+def record_dwt2(tier):
+    import pywt
+    rng = np.random.default_rng(52000 + seed())
+    events, cases, buf = [], [], []
+    pend = {}
+
+    def sink(ev, f):
+        if ev == "DWTForward.level":
+            buf.append({"ev": "fwd.level", "level": int(f["level"]), "H": int(f["H"]), "W": int(f["W"])})
+        elif ev == "afb1d.out":
+            if int(f["dim"]) == 3:
+                pend["mw"] = int(f["M"])
+            else:
+                buf.append({"ev": "level.out", "mh": int(f["M"]), "mw": pend.pop("mw", -1)})
+        elif ev == "DWTInverse.level":
+            buf.append({"ev": "inv.level", "lo_h": int(f["lo"][0]), "lo_w": int(f["lo"][1]), "hi_h": int(f["hi"][0]), "hi_w": int(f["hi"][1])})
+        elif ev == "sfb1d":
+            # three calls per level: (low, lh) and (hl, hh) along dim 2, then (lo, hi) along dim 3
+            if int(f["dim"]) == 2 and "mh" not in pend:
+                pend["mh"] = int(f["M"])
+            elif int(f["dim"]) == 3:
+                buf.append({"ev": "level.in", "mh": pend.pop("mh", -1), "mw": int(f["M"])})
+    _verif.set_sink(sink)
+    names = ["haar", "db2", "db4", "sym5", "bior2.2", "coif1"] if tier == "quick" else \
+        [n for n in pywt.wavelist(kind="discrete") if pywt.Wavelet(n).dec_len <= 24]
+    try:
+        for name in names:
+            L = pywt.Wavelet(name).dec_len
+            for mode in dwtlib.MODES:
+                for _ in range(2 if tier == "quick" else 3):
+                    H, W = int(rng.integers(2, 60)), int(rng.integers(2, 60))
+                    J = int(rng.integers(1, 4))
+                    dt = "f64" if rng.integers(0, 2) else "f32"
+                    tdt = torch.float64 if dt == "f64" else torch.float32
+                    start = len(events)
+                    events.append({"ev": "reset"})
+                    events.append({"ev": "call", "api": "fwd", "mode": mode, "H": H, "W": W, "Lc": L, "Lr": L, "J": J, "none": [], "dtype": dt})
+                    del buf[:]
+                    pend.clear()
+                    ok = True
+                    with torch.no_grad():
+                        try:
+                            yl, yh = pw.DWTForward(J=J, wave=name, mode=mode).to(tdt)(torch.zeros(1, 1, H, W, dtype=tdt))
+                            events.extend(buf)
+                            events.append({"ev": "ret", "api": "fwd", "outcome": "ok", "lensH": [int(y.shape[-2]) for y in yh],
+                                           "lensW": [int(y.shape[-1]) for y in yh], "outH": 0, "outW": 0})
+                        except Exception:   # noqa
+                            ok = False
+                            events.extend(buf)
+                            events.append({"ev": "ret", "api": "fwd", "outcome": "raise", "lensH": [], "lensW": [], "outH": 0, "outW": 0})
+                    cases.append((start, len(events), dict(api="DWTForward", wavelet=name, mode=mode, H=H, W=W, J=J)))
+                    if not ok:
+                        continue
+                    none = sorted(set(int(j) for j in rng.integers(1, J + 1, size=int(rng.integers(0, 2)))))
+                    start = len(events)
+                    events.append({"ev": "reset"})
+                    events.append({"ev": "call", "api": "inv", "mode": mode, "H": H, "W": W, "Lc": L, "Lr": L, "J": J, "none": none, "dtype": dt})
+                    del buf[:]
+                    pend.clear()
+                    with torch.no_grad():
+                        try:
+                            y = pw.DWTInverse(wave=name, mode=mode).to(tdt)((yl, [None if (j + 1) in none else h for j, h in enumerate(yh)]))
+                            events.extend(buf)
+                            events.append({"ev": "ret", "api": "inv", "outcome": "ok", "lensH": [], "lensW": [], "outH": int(y.shape[-2]), "outW": int(y.shape[-1])})
+                        except Exception:   # noqa
+                            events.extend(buf)
+                            events.append({"ev": "ret", "api": "inv", "outcome": "raise", "lensH": [], "lensW": [], "outH": 0, "outW": 0})
+                    cases.append((start, len(events), dict(api="DWTInverse", wavelet=name, mode=mode, H=H, W=W, J=J, none=none, dtype=dt)))
+    finally:
+        _verif.set_sink(None)
+    return events, cases
+
+
+def validate_dwt2(rep, pid, tier, which):
+    from . import models
+    events, cases = record_dwt2(tier)
+    c = models.model(models.DWT2_CALLS, "quick", Apis=set(), Emit=False, HWCodes={202}, LCodes={202})
+    rej = set(tracecheck.validate(rep, "Trace_DWT2", events, c, "Trace_DWT2", batch=100000, spec="TraceSpec"))
+    n_acc = 0
+    for a, b, cfg in cases:
+        if cfg["api"] != which:
+            continue
+        rep.nontriv(("stage_trace2", repr(cfg)))
+        r = [k for k in range(a, b) if k in rej]
+        if r:
+            e = events[r[0]]
+            rep.violation("the recorded execution of %s at %s is not a behaviour of the 2-D call machine (spec/DWT2.tla): event %r is not "
+                          "explained by any action" % (which, cfg, e), {"api": which, "check": "stage_trace", "cfg": cfg, "event": e,
+                                                                          "trace": events[a:b]})
+        else:
+            n_acc += 1
+    rep.count("stage_traces_2d_accepted", n_acc)
